@@ -682,7 +682,7 @@ func c12SharedProg(c *core.Ctx, i int64, r *rand.Rand) {
 	// the same with the program printing into an operating-system file (an *os.File is safe for concurrent use;
 	// opened for appending, so every write lands whole): a third of the cases, and /dev/null for another third
 	if i%3 != 0 {
-		fn := filepath.Join(c.Dir, fmt.Sprintf("shared-out-%d", i))
+		fn := filepath.Join(c.Dir, fmt.Sprintf("shared-out-%d-%d", i, os.Getpid()))
 		if i%3 == 2 {
 			fn = "/dev/null"
 		}
